@@ -370,7 +370,9 @@ pub fn run(cfg: &Cfg, rep: &mut Report) {
         let toks: [(&str, Token); 7] = [
             ("chardata", Token::CharacterProgramData(w)),
             ("decimal", Token::DecimalNumericProgramData(b"12.5")),
-            ("suffixed", Token::DecimalNumericSuffixProgramData(b"12", b"V")),
+            // a numeric element with a suffix part (whatever the suffix is, down to an empty one left over after an amplitude
+            // qualifier was split off) is not a plain numeric
+            ("suffixed", Token::DecimalNumericSuffixProgramData(b"12", *rng.pick(&[&b"V"[..], b"S", b"KHZ", b""]))),
             ("nondecimal", Token::NonDecimalNumericProgramData(rng.next() >> rng.usize(64))),
             ("string", Token::StringProgramData(st)),
             ("block", Token::ArbitraryBlockData(st)),
